@@ -33,7 +33,7 @@ Record case18 := mk18 {
 Definition op_of (n : nat) : opcode :=
   match n with
   | 0 => OExists | 1 => OIsDir | 2 => OMkdir | 3 => OMkdirAll | 4 => OCleanedAbs
-  | 5 => OReadFile | 6 => OWriteFile | _ => ORemoveAll
+  | 5 => OReadFile | 6 => OWriteFile | 7 => ORemoveAll | _ => OWalk
   end.
 Definition ev (n : nat) (p : string) (ok : bool) : event := mkEv (op_of n) p ok.
 
@@ -41,7 +41,7 @@ Definition opcode_eqb (a b : opcode) : bool :=
   match a, b with
   | OExists, OExists | OIsDir, OIsDir | OMkdir, OMkdir | OMkdirAll, OMkdirAll
   | OCleanedAbs, OCleanedAbs | OReadFile, OReadFile | OWriteFile, OWriteFile
-  | ORemoveAll, ORemoveAll => true
+  | ORemoveAll, ORemoveAll | OWalk, OWalk => true
   | _, _ => false
   end.
 
@@ -75,6 +75,10 @@ Definition kust_eqb (a b : kust) : bool :=
   && list_eqb String.eqb (k_resources a) (k_resources b)
   && list_eqb genargs_eqb (k_cmgens a) (k_cmgens b)
   && list_eqb genargs_eqb (k_secgens a) (k_secgens b)
+  && list_eqb (fun x y => String.eqb (fst x) (fst y) && String.eqb (snd x) (snd y)) (k_helminfl a) (k_helminfl b)
+  && list_eqb (fun x y => String.eqb (fst x) (fst y) && list_eqb String.eqb (snd x) (snd y))
+              (k_helmcharts a) (k_helmcharts b)
+  && opt_str_eqb (k_helmglobals a) (k_helmglobals b)
   && list_eqb String.eqb (k_patches a) (k_patches b)
   && list_eqb String.eqb (k_patches6902 a) (k_patches6902 b)
   && list_eqb String.eqb (k_psm a) (k_psm b)
